@@ -877,7 +877,7 @@ fn generate_right_ctx_state_char_arms(
     // Add char transitions
     for (StateIdx(next_state), chars) in state_chars.iter() {
         let pat = quote!(#(#chars)|*);
-        state_char_arms.push(quote!(#pat => self.state = #next_state));
+        state_char_arms.push(quote!(#pat => state = #next_state));
     }
 
     if !accept_chars.is_empty() {
